@@ -63,17 +63,45 @@ def python_oracle(tree):
                 and kind(n.operand.value) == "Num")
 
     folded_operands = {id(n.operand) for n in ast.walk(tree) if is_neg_literal(n)}
+
+    def counts(n):
+        return hasattr(n, "lineno") and not isinstance(n, ast.alias) and id(n) not in folded_operands
+
+    # line of the last positioned strict descendant in the order of the flat AST (fields in ast order, `body` last for
+    # definitions and classes): since fix 44b0b15 an occurrence starts on the smaller of that line and the node's own
+    last_desc = {}
+
+    def last_in_subtree(n):
+        """Line of the last positioned node of the subtree of n (n included), in flat-AST order; None if none."""
+        fields = list(ast.iter_fields(n))
+        if isinstance(n, (ast.FunctionDef, ast.AsyncFunctionDef, ast.ClassDef)):
+            fields.sort(key=lambda c: c[0] == "body")
+        last = None
+        for _, x in fields:
+            for child in (x if isinstance(x, list) else [x]):
+                if isinstance(child, ast.AST):
+                    sub = last_in_subtree(child)
+                    if sub is not None:
+                        last = sub
+        last_desc[id(n)] = last
+        return last if last is not None else (n.lineno if counts(n) else None)
+
+    last_in_subtree(tree)
     out = collections.Counter()
+    starts = collections.Counter()
     for n in ast.walk(tree):
-        if not hasattr(n, "lineno") or isinstance(n, ast.alias) or id(n) in folded_operands:
+        if not counts(n):
             continue
         if is_neg_literal(n):
-            out[("Num", n.lineno)] += 1
+            ty = "Num"
         elif isinstance(n, ast.Constant):
-            out[(kind(n.value), n.lineno)] += 1
+            ty = kind(n.value)
         else:
-            out[(type(n).__name__, n.lineno)] += 1
-    return out
+            ty = type(n).__name__
+        out[(ty, n.lineno)] += 1
+        ld = last_desc.get(id(n))
+        starts[(ty, n.lineno if ld is None else min(n.lineno, ld))] += 1
+    return out, starts
 
 
 class E2E:
@@ -91,16 +119,28 @@ class E2E:
         r = self.drv.call("c01.spec", tree=fe.export(tree))
         self.ctx.dist("hypothesis treeOk holds on the (tweaked) real tree" if r["wf"] else "hypothesis treeOk FAILS on the (tweaked) real tree")
         spec_nodes = collections.Counter((t, ln) for t, ln in r["nodes"])
-        if spec_nodes != python_oracle(tree):
+        spec_starts = collections.Counter((t, ln) for t, ln in r["starts"])
+        oracle_nodes, oracle_starts = python_oracle(tree)
+        self.ctx.dist("hypothesis lastDescMono (C01_node_starts: every occurrence starts on its node's own line) " +
+                      ("holds" if r["last_desc_mono"] else "FAILS") + " on the (tweaked) real tree")
+        if r["last_desc_mono"] and spec_starts != spec_nodes:
+            self.ctx.broken.append("corr:c01.spec starts differ from own lines although lastDescMono holds")
+        if spec_starts != oracle_starts:
+            self.ctx.broken.append("corr:c01.spec-starts-vs-python-oracle")
+            self.ctx.cov.setdefault("corr_replay", {"stored": ast.unparse(tree)[:400],
+                                                    "spec_minus_oracle": sorted((spec_starts - oracle_starts).elements())[:6],
+                                                    "oracle_minus_spec": sorted((oracle_starts - spec_starts).elements())[:6]})
+        if spec_nodes != oracle_nodes:
             # the Lean specification and the independent Python reading of the property text disagree
             self.ctx.broken.append("corr:c01.spec-vs-python-oracle")
             self.ctx.cov.setdefault("corr_replay", {"stored": ast.unparse(tree)[:400],
-                                                    "spec_minus_oracle": sorted((spec_nodes - python_oracle(tree)).elements())[:6],
-                                                    "oracle_minus_spec": sorted((python_oracle(tree) - spec_nodes).elements())[:6]})
+                                                    "spec_minus_oracle": sorted((spec_nodes - oracle_nodes).elements())[:6],
+                                                    "oracle_minus_spec": sorted((oracle_nodes - spec_nodes).elements())[:6]})
         else:
             self.ctx.dist("c01.spec == independent Python oracle")
         self.ctx.dist("hypotheses of C01_node_labels_pipeline (wfStages6 + wfTweak + treeOk of tweak) " + ("hold" if r["wf_pipeline"] else "FAIL") + " on the real tree")
-        return collections.Counter((t, ln) for t, ln in r["nodes"]), tree
+        # what is compared with the labels: (type, start of the occurrence) — the node's own line under lastDescMono
+        return spec_starts, tree
 
     def got_from_labels(self, labels, exp):
         # `alias`: "import aliases skipped" — no occurrence at all is expected for that type
